@@ -284,6 +284,7 @@ from ..world import SimWorld as _SimWorld  # noqa: E402
 ASSOC_SCENARIOS = ['client:release-unanswered', 'client:peer-never-closes-after-rp',
                    'client:silent-after-connect', 'client:rj-never-closes',
                    'client:abort-peer-never-closes', 'client:echo-unanswered',
+                   'client:source-read-error',
                    'server:silent-after-connect', 'server:half-rq', 'server:never-closes-after-release',
                    'server:abort-never-closes', 'server:silent-after-ac', 'server:rejected-never-closes']
 _orig_cases = cases
@@ -310,7 +311,7 @@ def run_case(case):      # noqa: F811
 def _assoc_case(case):
     from pynetdicom2 import applicationentity, sopclass, exceptions
     sc = case['assoc']
-    world = _SimWorld('c13a/%s/%s' % (case['seed'], sc))
+    world = _SimWorld('c13a/%s/%s' % (case['seed'], sc), with_fs=True)
     sim = world.sim
     viol = []
     ADDR = ('peerhost', 104)
@@ -358,6 +359,26 @@ def _assoc_case(case):
             cli = world.make_ae(applicationentity.ClientAE, 'CLI', [rc.IMPLICIT_LE], 16384)
             cli.timeout = TMO
             cli.add_scu(sopclass.verification_scu)
+            if what == 'source-read-error':
+                # the data set is sent from a file whose n-th read fails with EIO while the
+                # provider thread is fragmenting it
+                from .c15 import part10, make_ds
+                import random as _r
+                rr = _r.Random(case['seed'])
+                CT_ = '1.2.840.10008.5.1.4.1.1.2'
+                cli.max_pdu_length = 256
+                cli.add_scu(sopclass.storage_scu, [CT_])
+                ds_ = make_ds(rr, '1.2.3.4.5', CT_, 3000)
+                world.fs.put('/src/big.dcm', part10(ds_, rc.IMPLICIT_LE))
+                world.fs.fail_read_prefix = '/src/'
+                world.fs.fail_read_at = 10 ** 9        # count reads, fail none yet
+                world.watch_sends()
+
+                def arm(rec):
+                    # from now on the reads happen in the provider thread (lazy fragmenting)
+                    if rec.is_file:
+                        world.fs.fail_read_at = world.fs.nreads + 3 + case['seed'] % 5
+                world.on_send = arm
 
             def user():
                 t0 = sim.now
@@ -369,6 +390,8 @@ def _assoc_case(case):
                             assoc.abort(1)
                         elif what == 'echo-unanswered':
                             assoc.get_scu(rc.VERIFICATION)(1)
+                        elif what == 'source-read-error':
+                            assoc.get_scu('1.2.840.10008.5.1.4.1.1.2')('/src/big.dcm', 1)
                         else:
                             out['st'] = int(assoc.get_scu(rc.VERIFICATION)(1))
                 except Exception as e:  # pylint: disable=broad-except
@@ -441,6 +464,8 @@ def _assoc_case(case):
         # common: no provider thread left running, no library-side socket left open
         duls = [t for t in sim.tasks if t.role == 'dul']
         crashed = [t for t in duls if t.exc is not None]
+        if crashed and what == 'source-read-error' and isinstance(crashed[0].exc, OSError):
+            crashed = []     # the local read fault ends this provider; what matters is the rest
         if crashed:
             v('provider-died exc=%s' % type(crashed[0].exc).__name__, crashed[0].tb)
         alive = [t for t in duls if not t.done]
